@@ -44,6 +44,11 @@ MUTANTS = [
     M("c01-r7-forget-chunk-in-hand", "C01", "C01.R7", FEED, "\tif lastInputChunk.ID != \"\" {\n\t\tif feeder.chunkMan.UnloadOrDropChunk(&lastInputChunk) {\n\t\t\tnumSaved++\n\t\t} else {\n\t\t\tnumDropped++\n\t\t}\n\t}\n", "\t_ = lastInputChunk\n", "stop while the feeder blocks on a full output window"),
     M("c01-r8-feeder-before-recovery", "C01", "C01.R8", BUF, "\tbuf.recoverExistingChunks()\n\tgo buf.feeder.Run()", "\tgo buf.feeder.Run()\n\tbuf.recoverExistingChunks()", "restart with queued files while new chunks arrive"),
     M("c01-r8-first-pair-only", "C01", "C01.R8", "orchestrate/obykeyset/config.go", "\tfor _, pair := range args.OutputBufferPairs {", "\tfor _, pair := range args.OutputBufferPairs[:1] {", "two outputs, queued files only under the second"),
+    M("c01-r9-walk-skips-entries", "C01", "C01.R9", "util/localcachedmap/localcachedmap.go", "\tfor key, localCache := range lm.localMap {\n\t\taction(key, localCache)", "\tfor key, localCache := range lm.localMap {\n\t\tif len(key) > 100 {\n\t\t\tcontinue\n\t\t}\n\t\taction(key, localCache)", "a key set with long label values: its buffer is never flushed at Close"),
+    M("c01-r9-new-entry-not-cached", "C01", "C01.R9", "util/localcachedmap/localcachedmap.go", "\tlm.localMap[permanentMergedKey] = newLocalCache\n", "", "first record of a key set on a connection: a fresh wrapper per record, none in the map"),
+    M("c01-r9-evict-idle-buffers", "C01", "C01.R9", "util/localcachedmap/localcachedmap.go", "\tfor key, localCache := range lm.localMap {\n\t\taction(key, localCache)", "\tfor key, localCache := range lm.localMap {\n\t\tif len(lm.localMap) > 900 {\n\t\t\tdelete(lm.localMap, key)\n\t\t}\n\t\taction(key, localCache)", "more than 900 key sets on one connection"),
+    M("c01-r9-flush-recent-only", "C01", "C01.R9", ORC, "\toc.workerMap.Walk(func(mergedKey string, cache *channelInputBuffer) {", "\trecent := map[string]*channelInputBuffer{}\n\toc.workerMap.Walk(func(k string, b *channelInputBuffer) {\n\t\tif now.Sub(b.LastFlushTime) < time.Minute {\n\t\t\trecent[k] = b\n\t\t}\n\t})\n\twalk := func(f func(string, *channelInputBuffer)) {\n\t\tfor k, b := range recent {\n\t\t\tf(k, b)\n\t\t}\n\t}\n\twalk(func(mergedKey string, cache *channelInputBuffer) {", "a buffer whose last flush is over a minute old and that holds records at Close"),
+    B("c01-r9-benign-walk-renamed-vars", "C01", "util/localcachedmap/localcachedmap.go", "\tfor key, localCache := range lm.localMap {\n\t\taction(key, localCache)", "\tm := lm.localMap\n\tfor k, v := range m {\n\t\taction(k, v)"),
     # ---------------- C02
     M("c02-r1-ack-on-send", "C02", "C02.R1", SESS, "\tcase session.ackerChan <- chunk:\n\t\tsession.metrics.OnForwarded(chunk)", "\tcase session.ackerChan <- chunk:\n\t\tsession.onChunkAcked(chunk)\n\t\tsession.metrics.OnForwarded(chunk)", "upstream accepts bytes but never ACKs"),
     M("c02-r1-ack-before-read", "C02", "C02.R1", SESS, "\t\tclogger.Debugf(\"received pending chunk %s\", chunk.ID)\n", "\t\tclogger.Debugf(\"received pending chunk %s\", chunk.ID)\n\t\t\t\tsession.onChunkAcked(chunk)\n", "ACK read fails after the send"),
@@ -87,6 +92,9 @@ MUTANTS += [
     M("c03-r7-no-sort", "C03", "C03.R7", COP, "\tsort.Strings(fnames)\n\n\tchunkList", "\tchunkList", "restart with several queued files (directory order is arbitrary)", more=[(COP, "\t\"io\"\n\t\"os\"\n\t\"sort\"\n", "\t\"io\"\n\t\"os\"\n")]),
     M("c03-r7-accept-unmatched", "C03", "C03.R7", COP, "\t\t\top.logger.Warnf(\"skip unmatched chunk file id=%s\", fn)\n\t\t\tcontinue\n", "\t\t\top.logger.Warnf(\"skip unmatched chunk file id=%s\", fn)\n", "stale temp file or foreign file in the queue dir"),
     M("c03-r9-leftover-no-dec", "C03", "C03.R9", CMAN, "\tman.metrics.pendingChunks.Dec()\n\tman.metrics.leftoverChunksTotal.Inc()", "\tman.metrics.leftoverChunksTotal.Inc()", "stop with leftovers in sendAllAtEnd mode: WaitForZero never satisfied"),
+    M("c03-r11-threshold-doubled", "C03", "C03.R11", BUF, "\tif buf.feeder.NumOutput() >= defs.BufferMaxNumChunksInMemory/2 {", "\tif buf.feeder.NumOutput() >= defs.BufferMaxNumChunksInMemory*2 {", "the window holds at most the limit: the spill never happens"),
+    M("c03-r11-spill-only-when-queue-empty", "C03", "C03.R11", BUF, "\tif buf.feeder.NumOutput() >= defs.BufferMaxNumChunksInMemory/2 {", "\tif len(buf.inputChannel) == 0 && buf.feeder.NumOutput() >= defs.BufferMaxNumChunksInMemory/2 {", "backlog: the queue is non-empty exactly when the spill is needed"),
+    B("c03-r11-benign-flipped-comparison", "C03", BUF, "\tif buf.feeder.NumOutput() >= defs.BufferMaxNumChunksInMemory/2 {", "\tif limit := defs.BufferMaxNumChunksInMemory / 2; limit <= buf.feeder.NumOutput() {"),
     # ---------------- C04
     M("c04-r1-revert-short-write", "C04", "C04.R1", FILES, "\twerr := writeAllToFD(fd, data)\n", "\t_, werr := unix.Write(fd, data)\n", "short write (file size limit / disk full): original defect D10"),
     M("c04-r1-ignore-close", "C04", "C04.R1", FILES, "\tif cerr := unix.Close(fd); werr == nil {\n\t\twerr = cerr\n\t}\n", "\tunix.Close(fd)\n", "delayed write error reported at close (NFS, quota)"),
